@@ -110,6 +110,18 @@ def seed():
         return 0
 
 
+def _p(*args):
+    """print that survives a reader that went away (`check ... | head -1`): the exit code must not depend on who listens"""
+    try:
+        print(*args)
+        sys.stdout.flush()
+    except BrokenPipeError:
+        try:
+            sys.stdout = open(os.devnull, 'w')
+        except Exception:
+            pass
+
+
 def finish(report, explanation, assumptions, rule_text, level='other', extra_cov=None, replay_filter=None):
     """Print the verdict, write evidence and replay files, return the exit code."""
     pid = report.property_id
@@ -191,27 +203,27 @@ def finish(report, explanation, assumptions, rule_text, level='other', extra_cov
     with open(os.path.join(OUT, 'evidence', '%s.json' % pid), 'w') as fh:
         json.dump(ev, fh, indent=1, sort_keys=True, default=str)
 
-    print('%s [%s]: %d rule instances (%d hold, %d fail, %d undecided) over %d functions in %d files; rules: %s'
+    _p('%s [%s]: %d rule instances (%d hold, %d fail, %d undecided) over %d functions in %d files; rules: %s'
           % (pid, report.tier, len(report.instances), len(holds), len(fails), len(und),
              len(report.analysed_functions), len(report.analysed_units), ', '.join(rules)))
     for (n, o, fl) in report.floors:
-        print('  analysed %-40s %4d (floor %d)' % (n, o, fl))
+        _p('  analysed %-40s %4d (floor %d)' % (n, o, fl))
     for f, k in known_hits:
-        print('KNOWN-FINDING: property=%s %s -- %s' % (pid, f.key, k.get('what', f.message)))
+        _p('KNOWN-FINDING: property=%s %s -- %s' % (pid, f.key, k.get('what', f.message)))
     for f, p in zip(violations, replay_paths):
-        print('  ' + f.text())
-        print('VIOLATION property=%s replay=%s' % (pid, p))
+        _p('  ' + f.text())
+        _p('VIOLATION property=%s replay=%s' % (pid, p))
     if violations:
         return 1
     if report.errors:
         for m in report.errors:
-            print('ANALYSIS-ERROR property=%s %s' % (pid, m))
+            _p('ANALYSIS-ERROR property=%s %s' % (pid, m))
         return 2
     low = [(n, o, fl) for (n, o, fl) in report.floors if o < fl]
     if low:
         # no violation found, but a rule matched fewer sites than confirmed by hand: it would pass vacuously
         for (n, o, fl) in low:
-            print('ANALYSIS-ERROR property=%s floor `%s`: analysed %d < %d confirmed on the pinned tree -- the rule would pass vacuously'
+            _p('ANALYSIS-ERROR property=%s floor `%s`: analysed %d < %d confirmed on the pinned tree -- the rule would pass vacuously'
                   % (pid, n, o, fl))
         return 2
     return 0
@@ -228,20 +240,20 @@ def run_check(pid, fn, tier='quick', replay=None):
             hit = [f for f in report.findings if f.key == want]
             if hit:
                 for f in hit:
-                    print('REPLAY: still fails: ' + f.text())
-                    print(json.dumps(f.detail, indent=1, default=str))
-                print('VIOLATION property=%s replay=%s' % (pid, replay))
+                    _p('REPLAY: still fails: ' + f.text())
+                    _p(json.dumps(f.detail, indent=1, default=str))
+                _p('VIOLATION property=%s replay=%s' % (pid, replay))
                 return 1
-            print('REPLAY: rule instance %s holds on the current tree' % want)
+            _p('REPLAY: rule instance %s holds on the current tree' % want)
             return 0
         explanation, assumptions, rule_text = res[:3]
         extra = res[3] if len(res) > 3 else None
         return finish(report, explanation, assumptions, rule_text, extra_cov=extra)
     except AnalysisError as e:
-        print('ANALYSIS-ERROR property=%s %s' % (pid, e))
+        _p('ANALYSIS-ERROR property=%s %s' % (pid, e))
         return 2
     except Exception as e:  # a traceback must never look like a violation
         import traceback
         traceback.print_exc()
-        print('ANALYSIS-ERROR property=%s internal error: %r' % (pid, e))
+        _p('ANALYSIS-ERROR property=%s internal error: %r' % (pid, e))
         return 2
